@@ -276,6 +276,7 @@ def check_c06(run):
     quick = run.tier == "quick"
     invs = ["Conservation", "OneHolder", "OwnKeysOnly"]
     mc(run, "iso1.cfg", pool_cfg(3, 1, 2, True, 0, 1, invs))
+    mc(run, "iso2.cfg", pool_cfg(4, 2, 3, True, 1, 1, invs))
     g = gen(run, "SPECIFICATION GSpec\nCONSTANTS\n  GOps = 1\n  GBurst = 1\n  GIso = %d\n" % (4 if quick else 5))
     sessions = []
     for i, rec in enumerate(g["isolation"]):
